@@ -554,6 +554,25 @@ def check_family(ctx):
                     ctx.ok('C09.8', site, '%s: success exit only behind %s; %s' % (b.name, what, info))
                     done = True
                     break
+            if done and b.name.endswith('_returning_metadata'):
+                # the metadata handed back is the one the matcher found for the caller's key: the accepted value contains the result of a
+                # *_returning_metadata call over (self, the caller's verifier) and no other lookup of signature objects
+                META = ('has_some_signature_from_key_returning_metadata', 'has_signature_from_returning_metadata', 'verify_signature_from_returning_metadata')
+                def from_matcher(y):
+                    y = strip_sites(y)
+                    return (y[0] == 'call' and call_name(y) in META and len(y[2]) >= 2 and strip_sites(y[2][0]) == P1
+                            and strip_sites(detry(y[2][1])) == ('param', 2))
+                def other_lookup(y):
+                    y = strip_sites(y)
+                    return y[0] == 'call' and call_name(y) not in META and (
+                        call_name(y) in ('objects_for_predicate', 'object_for_predicate', 'assertions_with_predicate', 'assertions', 'signature_metadata')
+                        or (callee_of(y) is not None and callee_of(y).krate == 'bc_envelope' and 'signature_impl' in callee_of(y).path
+                            and not fam_call(y) and call_name(y) not in ('unwrap_envelope',)))
+                if not contains(st, from_matcher) or contains(st, other_lookup):
+                    ctx.fail('C09.8', site, '%s hands back metadata that is not the matcher\'s result for the caller\'s key: returns %s' % (b.name, fmt(st)[:220]),
+                             key='C09.8|metadata|' + b.name)
+                else:
+                    ctx.ok('C09.8', site, '%s: the metadata handed back is the matcher\'s result for (self, the caller\'s verifier)' % b.name, nontrivial=False)
             if not done:
                 ctx.fail('C09.8', site, '%s can return success without a positive signature verdict on self (no has-signature / threshold / primitive test and no '
                          'successful verify* call dominates this exit): returns %s' % (b.name, fmt(st)), key='C09.8|' + b.name)
